@@ -144,19 +144,18 @@ def lean_files(*subdirs):
     return sorted(out)
 
 
-def run_driver(lines, timeout=3600):
-    """pipe operation lines to the Lean driver; one answer per line"""
+def run_driver(lines, name, timeout=3600):
+    """pipe operation lines to the Lean driver of AoVerif.Drive.<name>; one answer per line.
+    Builds the Drive module first (it may depend on regenerated Gen/ files)."""
     if not lines:
         return []
-    exe = os.path.join(LEAN_DIR, ".lake", "build", "bin", "aodriver")
+    ok, log = lake_build(["AoVerif.Drive." + name])
+    if not ok:
+        raise LeanError("driver module AoVerif.Drive.%s does not build:\n%s" % (name, log[-3000:]))
     inp = "\n".join(lines) + "\n"
-    if os.path.exists(exe) and os.environ.get("AOVERIF_INTERP") != "1":
-        p = subprocess.run([exe], input=inp, capture_output=True, text=True, timeout=timeout)
-        out = p.stdout
-    else:
-        rc, out, log = _run(["lake", "env", "lean", "--run", "Driver.lean"], inp=inp, timeout=timeout)
-        if rc != 0:
-            raise LeanError("driver failed:\n" + log[-3000:])
+    rc, out, log = _run(["lake", "env", "lean", "--run", os.path.join("drivers", name + ".lean")], inp=inp, timeout=timeout)
+    if rc != 0:
+        raise LeanError("driver failed:\n" + log[-3000:])
     ans = [l for l in out.splitlines() if "conda" not in l]
     if len(ans) != len(lines):
         raise LeanError("driver answered %d lines for %d operations" % (len(ans), len(lines)))
